@@ -11,7 +11,8 @@ import gen as G
 THEOREMS = ['byte_mask_encoding_irrelevant', 'negative_index_encoding_irrelevant', 'unmasked_encoding_irrelevant',
             'layout_independent_num', 'layout_independent_local_index', 'layout_independent_pad',
             'layout_independent_combinations', 'layout_independent_carry', 'numpy_shape_is_regular_nesting',
-            'layout_independent_reduce_partial', 'layout_independent_sort']
+            'layout_independent_reduce_partial', 'layout_independent_sort', 'layout_independent_fillna',
+            'layout_independent_field', 'layout_independent_flatten_partial']
 RULE = ('value-first: one (type, values) pair encoded twice (random: ListOffset/ListArray/Regular x 32/U32/64-bit x offset '
         'origin x gaps/shuffles x IndexedArray indirection x five option encodings; canonical) x one of 12 operations with '
         'random arguments; non-trivial = the two encodings differ textually and the operation succeeded on both; '
@@ -38,7 +39,7 @@ def one(rng, i):
         kw.update(allow_str=False, leaf_dtypes=NUM[:-1])
         special = False
     a = G.gen_array(rng, depth=rng.choice([1, 2, 3, 3]), canonical_too=True, type_kw=kw, special=special,
-                    enc_kw=dict(weird_empty=0.1))
+                    enc_kw=dict(weird_empty=0.1, strided=0.1))
     t = a['type']
     mn, mx = G.list_depth(t)
     sig = None
